@@ -98,3 +98,49 @@ func VerifC15Neg() {
 	rec.finish()
 	verifrt.Assert(string(rec.body) == "abc", "NEGATIVE TWIN: eligible responses are delivered uncompressed")
 }
+
+// VerifC15Cap: the buffering cap and the streaming fallback (with the cap
+// scaled down by a declared source overlay), over TWO consecutive requests
+// through the same middleware instance: whatever the first response did
+// (stayed under the cap, crossed it in the first write, crossed it in a later
+// write), every response must decode to exactly the backend's body.
+func VerifC15Cap(writes int) {
+	mw, err := builtins["gzip"]("gzip", map[string]interface{}{"level": float64(5), "min_size": float64(0), "content_types": []interface{}{"text/html"}})
+	verifrt.Assert(err == nil, "documented gzip options are accepted")
+	for req := 0; req < 2; req++ {
+		n := writes
+		if req == 1 {
+			n = 1 // the second response is a small one through the same middleware instance
+		}
+		sizes := make([]int, n)
+		total := 0
+		for i := range sizes {
+			sizes[i] = []int{0, 3, 5, 6}[verifrt.Choice("len", 4)]
+			total += sizes[i]
+		}
+		status := verifrt.IntRange("status", 200, 599)
+		backendBody := verifPayload[:total]
+		rec := verifNewRecorder()
+		h := mw(http.HandlerFunc(func(w http.ResponseWriter, r *http.Request) {
+			w.Header().Set("Content-Type", "text/html")
+			w.WriteHeader(status)
+			off := 0
+			for _, n := range sizes {
+				w.Write([]byte(verifPayload[off : off+n]))
+				off += n
+			}
+		}))
+		r := verifRequest()
+		r.Header.Set("Accept-Encoding", "gzip")
+		h.ServeHTTP(rec, r)
+		rec.finish()
+		verifrt.Assert(rec.status == status, "the client gets the backend's status (also after an over-cap response)")
+		if rec.wire.Get("Content-Encoding") == "gzip" {
+			dec, ok := verifGunzip(rec.body)
+			verifrt.Assert(ok && string(dec) == backendBody, "compressed: the body decodes to exactly the backend's body (cap / reuse)")
+			verifrt.Assert(total <= 8, "a response larger than the buffering cap is not compressed")
+		} else {
+			verifrt.Assert(string(rec.body) == backendBody, "not compressed (over the buffering cap): the body is byte-identical to the backend's body")
+		}
+	}
+}
